@@ -107,3 +107,806 @@ Qed.
 Arguments var_post_out : simpl never.
 Arguments var_pre_out : simpl never.
 Arguments meets : simpl never.
+
+(* ------------------------------------------------------------------ *)
+(* Shapes of the component procedures (independent of the space)       *)
+(* ------------------------------------------------------------------ *)
+
+Definition avl (o : option (list state)) : list state :=
+  match o with Some a => a | None => [] end.
+
+Section Shapes.
+Variable N : net.
+Variable U : list state.
+
+(* forward growth: a chain of one-variable extensions *)
+Inductive fgrow : list state -> list state -> Prop :=
+| fg_refl : forall X, fgrow X X
+| fg_step : forall X v Y, fgrow (X ++ var_post_out N v X) Y -> fgrow X Y.
+
+Inductive bgrow : option (list state) -> option (list state) -> Prop :=
+| bg_refl : forall o, bgrow o o
+| bg_step : forall a v o, bgrow (Some (a ++ var_pre_out N U v a)) o -> bgrow (Some a) o.
+
+Lemma fgrow_length : forall X Y, fgrow X Y -> length X <= length Y.
+Proof.
+  intros X Y H. induction H as [X|X v Y H IH]; [apply le_n|].
+  rewrite app_length in IH. lia.
+Qed.
+
+Lemma fgrow_NoDup : forall X Y, fgrow X Y -> NoDup X -> NoDup Y.
+Proof.
+  intros X Y H. induction H as [X|X v Y H IH]; intros HX; [exact HX|].
+  apply IH. apply var_post_out_ext_NoDup. exact HX.
+Qed.
+
+Lemma bgrow_length : forall o o', bgrow o o' -> length (avl o) <= length (avl o').
+Proof.
+  intros o o' H. induction H as [o|a v o H IH]; [apply le_n|].
+  simpl in *. rewrite app_length in IH. lia.
+Qed.
+
+Lemma bgrow_NoDup : forall o o', NoDup U -> bgrow o o' -> NoDup (avl o) -> NoDup (avl o').
+Proof.
+  intros o o' HU H. induction H as [o|a v o H IH]; intros Ho; [exact Ho|].
+  apply IH. simpl. apply var_pre_out_ext_NoDup; [exact HU|exact Ho].
+Qed.
+
+Lemma fwd_try_spec : forall force vars st st' grew p,
+  fwd_try N force vars st = (st', grew, p) ->
+  t_avoid st' = t_avoid st /\ t_sat st' = t_sat st /\ t_rest st' = t_rest st /\
+  (grew = false -> t_reach st' = t_reach st) /\
+  (grew = true -> exists v, var_post_out N v (t_reach st) <> [] /\
+                            t_reach st' = t_reach st ++ var_post_out N v (t_reach st)) /\
+  (p = false -> st' = st /\ forall v, In v vars -> var_post_out N v (t_reach st) = []) /\
+  (force = true -> p = true -> grew = true).
+Proof.
+  intros force vars. induction vars as [|v r IH]; intros st st' grew p H; cbn [fwd_try] in H.
+  - injection H as <- <- <-.
+    repeat split; try reflexivity; try discriminate. intros v [].
+  - destruct (var_post_out N v (t_reach st)) as [|x succ] eqn:Es.
+    + apply IH in H. destruct H as (Ha & Hs & Hr & Hg0 & Hg1 & Hp0 & Hpf).
+      repeat split; try assumption.
+      * apply Hp0. assumption.
+      * intros w [Hw|Hw]; [subst w; exact Es|]. apply Hp0; assumption.
+    + match type of H with (if ?c then _ else _) = _ => destruct c eqn:Ec end.
+      * injection H as <- <- <-. simpl.
+        repeat split; try reflexivity; try discriminate.
+        intros _. exists v. rewrite Es. split; [discriminate|reflexivity].
+      * match type of H with context [fwd_try N force r ?s] =>
+          destruct (fwd_try N force r s) as [[st2 g] p2] eqn:Er end.
+        injection H as <- <- <-. apply IH in Er. simpl in Er.
+        destruct Er as (Ha & Hs & Hr & Hg0 & Hg1 & Hp0 & Hpf).
+        repeat split; try assumption; try discriminate.
+        intros Hf _. subst force. rewrite !orb_true_r in Ec. discriminate.
+Qed.
+
+Lemma fwd_sat_spec : forall fuel force st pr0 pe0 st1 pr pe,
+  fwd_sat fuel N force st pr0 pe0 = Some (st1, pr, pe) ->
+  fgrow (t_reach st) (t_reach st1) /\
+  t_avoid st1 = t_avoid st /\ t_sat st1 = t_sat st /\ t_rest st1 = t_rest st /\
+  (pr = true -> pr0 = true \/ length (t_reach st) < length (t_reach st1)) /\
+  (force = true -> pe = true -> pe0 = true \/ length (t_reach st) < length (t_reach st1)).
+Proof.
+  induction fuel as [|f IH]; intros force st pr0 pe0 st1 pr pe H; cbn [fwd_sat] in H.
+  - injection H as <- <- <-. split; [apply fg_refl|]. repeat split; auto.
+  - match type of H with (if ?c then _ else _) = _ => destruct c eqn:Em end; [discriminate|].
+    destruct (fwd_try N force (t_sat st) st) as [[st' g] p] eqn:Et.
+    apply fwd_try_spec in Et. destruct Et as (Ha & Hs & Hr & Hg0 & Hg1 & Hp0 & Hpf).
+    destruct g.
+    + apply IH in H. destruct H as (Hfg & Ha' & Hs' & Hr' & Hpr & Hpe).
+      destruct (Hg1 eq_refl) as [v [Hne Hre]].
+      assert (Hlt : length (t_reach st) < length (t_reach st1)).
+      { pose proof (fgrow_length _ _ Hfg) as Hle. rewrite Hre in Hle.
+        pose proof (ST_app_nonempty_length _ (t_reach st) _ Hne) as Hl. lia. }
+      split; [apply fg_step with (v := v); rewrite <- Hre; exact Hfg|].
+      repeat split; try congruence; intros; right; exact Hlt.
+    + injection H as <- <- <-. rewrite (Hg0 eq_refl). split; [apply fg_refl|].
+      repeat split; try assumption.
+      * intros Hpr. left. exact Hpr.
+      * intros Hf Hpe. destruct pe0; [left; reflexivity|]. simpl in Hpe.
+        specialize (Hpf Hf Hpe). discriminate.
+Qed.
+
+Lemma fwd_sat_none : forall fuel force st pr0 pe0,
+  fwd_sat fuel N force st pr0 pe0 = None ->
+  exists X a, fgrow (t_reach st) X /\ t_avoid st = Some a /\ meets a X = true.
+Proof.
+  induction fuel as [|f IH]; intros force st pr0 pe0 H; cbn [fwd_sat] in H; [discriminate|].
+  destruct (t_avoid st) as [a|] eqn:Ea.
+  - destruct (meets a (t_reach st)) eqn:Em.
+    + exists (t_reach st), a. split; [apply fg_refl|]. split; [reflexivity|exact Em].
+    + destruct (fwd_try N force (t_sat st) st) as [[st' g] p] eqn:Et.
+      apply fwd_try_spec in Et. destruct Et as (Ha & Hs & Hr & Hg0 & Hg1 & Hp0 & Hpf).
+      destruct g; [|discriminate].
+      apply IH in H. destruct H as [X [a' [Hfg [Ha' Hm]]]].
+      destruct (Hg1 eq_refl) as [v [Hne Hre]].
+      exists X, a'. split; [apply fg_step with (v := v); rewrite <- Hre; exact Hfg|].
+      split; [congruence|exact Hm].
+  - destruct (fwd_try N force (t_sat st) st) as [[st' g] p] eqn:Et.
+    apply fwd_try_spec in Et. destruct Et as (Ha & Hs & Hr & Hg0 & Hg1 & Hp0 & Hpf).
+    destruct g; [|discriminate].
+    apply IH in H. destruct H as [X [a' [Hfg [Ha' Hm]]]]. congruence.
+Qed.
+
+Lemma fwd_sat_pending : forall fuel force st pr0 st1 pr pe,
+  fwd_sat fuel N force st pr0 true = Some (st1, pr, pe) -> pe = true.
+Proof.
+  induction fuel as [|f IH]; intros force st pr0 st1 pr pe H; cbn [fwd_sat] in H.
+  - injection H as _ _ <-. reflexivity.
+  - match type of H with (if ?c then _ else _) = _ => destruct c end; [discriminate|].
+    destruct (fwd_try N force (t_sat st) st) as [[st' g] p].
+    destruct g.
+    + apply IH in H. exact H.
+    + injection H as _ _ <-. reflexivity.
+Qed.
+
+(* a forward saturation that reports nothing pending did nothing, found no saturated variable
+   with successors outside, and checked that avoid is not met *)
+Lemma fwd_sat_quiet : forall f force st pr0 st1 pr,
+  fwd_sat (S f) N force st pr0 false = Some (st1, pr, false) ->
+  st1 = st /\
+  (forall v, In v (t_sat st) -> var_post_out N v (t_reach st) = []) /\
+  match t_avoid st with Some a => meets a (t_reach st) = false | None => True end.
+Proof.
+  intros f force st pr0 st1 pr H. cbn [fwd_sat] in H.
+  match type of H with (if ?c then _ else _) = _ => destruct c eqn:Em end; [discriminate|].
+  destruct (fwd_try N force (t_sat st) st) as [[st' g] p] eqn:Et.
+  apply fwd_try_spec in Et. destruct Et as (Ha & Hs & Hr & Hg0 & Hg1 & Hp0 & Hpf).
+  destruct g.
+  - apply fwd_sat_pending in H. discriminate.
+  - injection H as <- _ Hp. simpl in Hp. destruct (Hp0 Hp) as [He Hall].
+    split; [exact He|]. split; [exact Hall|].
+    destruct (t_avoid st); [exact Em|exact I].
+Qed.
+
+Lemma bwd_try_spec : forall vars a a',
+  bwd_try N U vars a = Some a' ->
+  exists v, var_pre_out N U v a <> [] /\ a' = a ++ var_pre_out N U v a.
+Proof.
+  induction vars as [|v r IH]; intros a a' H; cbn [bwd_try] in H; [discriminate|].
+  destruct (var_pre_out N U v a) as [|x pre] eqn:Ep.
+  - apply IH. exact H.
+  - injection H as <-. exists v. rewrite Ep. split; [discriminate|reflexivity].
+Qed.
+
+Lemma bwd_sat_spec : forall fuel st pr0 st2 pr,
+  bwd_sat fuel N U st pr0 = Some (st2, pr) ->
+  t_reach st2 = t_reach st /\ bgrow (t_avoid st) (t_avoid st2) /\
+  t_sat st2 = t_sat st /\ t_rest st2 = t_rest st /\
+  (pr = true -> pr0 = true \/ length (avl (t_avoid st)) < length (avl (t_avoid st2))).
+Proof.
+  induction fuel as [|f IH]; intros st pr0 st2 pr H; cbn [bwd_sat] in H.
+  - injection H as <- <-. split; [reflexivity|]. split; [apply bg_refl|]. repeat split; auto.
+  - destruct (t_avoid st) as [a|] eqn:Ea.
+    + destruct (meets a (t_reach st)); [discriminate|].
+      destruct (bwd_try N U (t_sat st) a) as [a'|] eqn:Eb.
+      * apply bwd_try_spec in Eb. destruct Eb as [v [Hne Ha']]. subst a'.
+        apply IH in H. simpl in H. destruct H as (Hre & Hbg & Hs & Hr & Hpr).
+        assert (Hlt : length a < length (avl (t_avoid st2))).
+        { pose proof (bgrow_length _ _ Hbg) as Hle. simpl in Hle.
+          pose proof (ST_app_nonempty_length _ a _ Hne) as Hl. lia. }
+        split; [exact Hre|]. split; [apply bg_step with (v := v); exact Hbg|].
+        repeat split; try assumption. intros _. right. simpl. exact Hlt.
+      * injection H as <- <-. rewrite Ea. split; [reflexivity|]. split; [apply bg_refl|].
+        repeat split; auto.
+    + injection H as <- <-. rewrite Ea. split; [reflexivity|]. split; [apply bg_refl|].
+      repeat split; auto.
+Qed.
+
+Lemma bwd_sat_none : forall fuel st pr0,
+  bwd_sat fuel N U st pr0 = None ->
+  exists a, bgrow (t_avoid st) (Some a) /\ meets a (t_reach st) = true.
+Proof.
+  induction fuel as [|f IH]; intros st pr0 H; cbn [bwd_sat] in H; [discriminate|].
+  destruct (t_avoid st) as [a|] eqn:Ea; [|discriminate].
+  destruct (meets a (t_reach st)) eqn:Em.
+  - exists a. split; [apply bg_refl|exact Em].
+  - destruct (bwd_try N U (t_sat st) a) as [a'|] eqn:Eb; [|discriminate].
+    apply bwd_try_spec in Eb. destruct Eb as [v [Hne Ha']]. subst a'.
+    apply IH in H. simpl in H. destruct H as [a2 [Hbg Hm]].
+    exists a2. split; [apply bg_step with (v := v); exact Hbg|exact Hm].
+Qed.
+
+Lemma add_var_spec : forall order st st3,
+  add_var N U order st = Some st3 ->
+  exists v, In v order /\
+    t_reach st3 = t_reach st ++ var_post_out N v (t_reach st) /\
+    t_avoid st3 = match t_avoid st with
+                  | Some a => Some (a ++ var_pre_out N U v a)
+                  | None => None
+                  end /\
+    t_sat st3 = v :: t_sat st /\
+    t_rest st3 = filter (fun w => negb (Nat.eqb w v)) (t_rest st).
+Proof.
+  induction order as [|v r IH]; intros st st3 H; cbn [add_var] in H; [discriminate|].
+  assert (Hhere : forall st', st' = {| t_reach := t_reach st ++ var_post_out N v (t_reach st);
+             t_avoid := match t_avoid st with
+                        | Some a => Some (a ++ match t_avoid st with
+                                               | Some a0 => var_pre_out N U v a0
+                                               | None => []
+                                               end)
+                        | None => None
+                        end;
+             t_sat := v :: t_sat st;
+             t_rest := filter (fun w => negb (Nat.eqb w v)) (t_rest st);
+             t_bools := t_bools st |} ->
+           exists v0, In v0 (v :: r) /\
+             t_reach st' = t_reach st ++ var_post_out N v0 (t_reach st) /\
+             t_avoid st' = match t_avoid st with
+                           | Some a => Some (a ++ var_pre_out N U v0 a)
+                           | None => None
+                           end /\
+             t_sat st' = v0 :: t_sat st /\
+             t_rest st' = filter (fun w => negb (Nat.eqb w v0)) (t_rest st)).
+  { intros st' ->. exists v. split; [left; reflexivity|]. simpl.
+    destruct (t_avoid st); repeat split; reflexivity. }
+  destruct (var_post_out N v (t_reach st)) as [|x fwd] eqn:Ef.
+  - destruct (match t_avoid st with Some a => var_pre_out N U v a | None => [] end)
+      as [|y bwd] eqn:Eb.
+    + apply IH in H. destruct H as [v0 [Hin Hrest]]. exists v0. split; [right; exact Hin|exact Hrest].
+    + injection H as <-. apply Hhere. reflexivity.
+  - injection H as <-. apply Hhere. reflexivity.
+Qed.
+
+Lemma add_var_none : forall order st,
+  add_var N U order st = None ->
+  forall v, In v order -> var_post_out N v (t_reach st) = [].
+Proof.
+  induction order as [|v r IH]; intros st H w Hw; [destruct Hw|].
+  cbn [add_var] in H.
+  destruct (var_post_out N v (t_reach st)) as [|x fwd] eqn:Ef; [|discriminate].
+  destruct (match t_avoid st with Some a => var_pre_out N U v a | None => [] end)
+    as [|y bwd] eqn:Eb; [|discriminate].
+  destruct Hw as [Hw|Hw]; [subst w; exact Ef|]. apply IH; assumption.
+Qed.
+
+End Shapes.
+
+(* ------------------------------------------------------------------ *)
+(* Invariants of the main cycle inside a trap space                    *)
+(* ------------------------------------------------------------------ *)
+
+Lemma ST_step_neq_lt : forall N v s, wf_state N s -> step_i N v s <> s -> v < nvars N.
+Proof.
+  intros N v s Hwf Hne. destruct (le_lt_dec (nvars N) v) as [Hle|Hlt]; [|exact Hlt].
+  exfalso. apply Hne. unfold step_i. apply set_nth_beyond. rewrite Hwf. exact Hle.
+Qed.
+
+Lemma ST_free_vars_In : forall (Sp : space) v,
+  In v (free_vars Sp) <-> v < length Sp /\ nth v Sp None = None.
+Proof.
+  intros Sp v. unfold free_vars. rewrite filter_In, in_seq. split.
+  - intros [[_ Hlt] Hn]. split; [exact Hlt|]. destruct (nth v Sp None); [discriminate|reflexivity].
+  - intros [Hlt Hn]. split; [lia|]. rewrite Hn. reflexivity.
+Qed.
+
+Lemma ST_perm_nat_In : forall a b v, perm_nat a b = true -> (In v a <-> In v b).
+Proof.
+  intros a b v H. unfold perm_nat in H. rewrite !andb_true_iff in H. destruct H as [[_ H1] H2].
+  rewrite forallb_forall in H1, H2. split; intros Hin.
+  - apply H1 in Hin. apply existsb_exists in Hin. destruct Hin as [y [Hy He]].
+    apply Nat.eqb_eq in He. subst y. exact Hy.
+  - apply H2 in Hin. apply existsb_exists in Hin. destruct Hin as [y [Hy He]].
+    apply Nat.eqb_eq in He. subst y. exact Hy.
+Qed.
+
+Section Sym.
+Variable N : net.
+Variable Sp : space.
+Variable pivot : state.
+Variable avoid : list state.
+Hypothesis Htrap : trap_space N Sp.
+Hypothesis Hpiv : in_space pivot Sp = true.
+Hypothesis Havoid : forall a, In a avoid -> in_space a Sp = true.
+
+Lemma Sym_len : length Sp = nvars N.
+Proof. apply trap_space_length. exact Htrap. Qed.
+
+Lemma Sym_wf : forall s, in_space s Sp = true -> wf_state N s.
+Proof. intros s H. apply (in_space_wf N s Sp Sym_len H). Qed.
+
+Lemma Sym_reach_in : forall s t, in_space s Sp = true -> reach N s t -> in_space t Sp = true.
+Proof.
+  intros s t Hs Hr.
+  assert (H : sp_states N Sp t).
+  { apply (A_closed_reach N (sp_states N Sp) s t); [exact (proj2 Htrap)| |exact Hr].
+    split; [apply Sym_wf; exact Hs|exact Hs]. }
+  exact (proj2 H).
+Qed.
+
+Definition Rok (X : list state) : Prop :=
+  (forall t, In t X -> reach N pivot t) /\ In pivot X.
+
+Definition Aok (o : option (list state)) : Prop :=
+  match o with
+  | None => avoid = []
+  | Some a => incl avoid a /\
+              forall x, In x a -> in_space x Sp = true /\ exists y, reach N x y /\ In y avoid
+  end.
+
+Lemma Rok_in : forall X t, Rok X -> In t X -> in_space t Sp = true.
+Proof. intros X t [HX _] Ht. apply (Sym_reach_in pivot t Hpiv). apply HX. exact Ht. Qed.
+
+Lemma Rok_incl : forall X, Rok X -> incl X (states_of Sp).
+Proof. intros X HX t Ht. apply states_of_spec. apply (Rok_in X t HX Ht). Qed.
+
+Lemma Aok_incl : forall o, Aok o -> incl (avl o) (states_of Sp).
+Proof.
+  intros [a|] Ho t Ht; [|destruct Ht]. simpl in Ht. apply states_of_spec.
+  destruct Ho as [_ Ho]. exact (proj1 (Ho t Ht)).
+Qed.
+
+Lemma Rok_post : forall X v, Rok X -> Rok (X ++ var_post_out N v X).
+Proof.
+  intros X v HX. pose proof HX as [Hr Hp]. split; [|apply in_or_app; left; exact Hp].
+  intros t Ht. apply in_app_or in Ht. destruct Ht as [Ht|Ht]; [apply Hr; exact Ht|].
+  apply var_post_out_spec in Ht. destruct Ht as [[s [Hs [Hts Hne]]] _].
+  apply (A_reach_step_r N pivot s t); [apply Hr; exact Hs|].
+  exists v. split; [|split; [exact Hts|exact Hne]].
+  apply (ST_step_neq_lt N v s); [apply Sym_wf; apply (Rok_in X s HX Hs)|].
+  rewrite <- Hts. exact Hne.
+Qed.
+
+Lemma Aok_pre : forall a v, Aok (Some a) -> Aok (Some (a ++ var_pre_out N (states_of Sp) v a)).
+Proof.
+  intros a v [Hi Ha]. split; [apply incl_appl; exact Hi|].
+  intros x Hx. apply in_app_or in Hx. destruct Hx as [Hx|Hx]; [apply Ha; exact Hx|].
+  apply var_pre_out_spec in Hx. destruct Hx as (HU & _ & Hne & Hin).
+  apply states_of_spec in HU. split; [exact HU|].
+  destruct (Ha _ Hin) as [_ [y [Hry Hy]]]. exists y. split; [|exact Hy].
+  apply (A_reach_trans N x (step_i N v x) y); [|exact Hry].
+  apply rt_step. exists v. split; [|split; [reflexivity|exact Hne]].
+  apply (ST_step_neq_lt N v x); [apply Sym_wf; exact HU|exact Hne].
+Qed.
+
+Lemma fgrow_Rok : forall X Y, fgrow N X Y -> Rok X -> Rok Y.
+Proof.
+  intros X Y H. induction H as [X|X v Y H IH]; intros HX; [exact HX|].
+  apply IH. apply Rok_post. exact HX.
+Qed.
+
+Lemma bgrow_Aok : forall o o', bgrow N (states_of Sp) o o' -> Aok o -> Aok o'.
+Proof.
+  intros o o' H. induction H as [o|a v o H IH]; intros Ho; [exact Ho|].
+  apply IH. apply Aok_pre. exact Ho.
+Qed.
+
+(* a meeting point of the two sets proves that the pivot reaches avoid *)
+Lemma Sym_hit : forall X a, Rok X -> Aok (Some a) -> meets a X = true ->
+  exists t, reach N pivot t /\ In t avoid.
+Proof.
+  intros X a [HX _] [_ Ha] Hm. apply meets_spec in Hm. destruct Hm as [s [Hsa HsX]].
+  destruct (Ha s Hsa) as [_ [y [Hry Hy]]]. exists y. split; [|exact Hy].
+  apply (A_reach_trans N pivot s y); [apply HX; exact HsX|exact Hry].
+Qed.
+
+(* a set that no free variable of the space leaves is closed under the dynamics *)
+Lemma Sym_closed : forall X, Rok X ->
+  (forall v, In v (free_vars Sp) -> var_post_out N v X = []) ->
+  forall t, reach N pivot t -> In t X.
+Proof.
+  intros X HX Hfree.
+  assert (Hstep : forall s t, trans N s t -> In s X -> In t X).
+  { intros s t [i [Hi [Hts Hne]]] Hs.
+    pose proof (Rok_in X s HX Hs) as HsS. pose proof (Sym_wf s HsS) as Hwf.
+    destruct (nth i Sp None) as [b|] eqn:Ei.
+    - exfalso. apply Hne. rewrite Hts. unfold step_i.
+      assert (Hc : const_on N i Sp b).
+      { apply (proj1 (trap_space_char N Sp Sym_len) Htrap i b Ei). }
+      rewrite (Hc s Hwf HsS).
+      assert (Hb : nth i s false = b).
+      { apply (proj1 (in_space_nth s Sp (in_space_length s Sp HsS)) HsS i b Ei). }
+      rewrite <- Hb. apply set_nth_same. rewrite Hwf. exact Hi.
+    - destruct (in_dec A_state_eq_dec t X) as [Hin|Hnin]; [exact Hin|]. exfalso.
+      assert (Hf : In i (free_vars Sp)).
+      { apply ST_free_vars_In. split; [rewrite Sym_len; exact Hi|exact Ei]. }
+      assert (Hpost : In t (var_post_out N i X)).
+      { apply var_post_out_spec. split; [|exact Hnin]. exists s. auto. }
+      rewrite (Hfree i Hf) in Hpost. destruct Hpost. }
+  assert (Hall : forall s t, reach N s t -> In s X -> In t X).
+  { intros s t Hr. induction Hr as [s t Hst|s|s u t H1 IH1 H2 IH2]; intros Hs.
+    - apply (Hstep s t Hst Hs).
+    - exact Hs.
+    - apply IH2. apply IH1. exact Hs. }
+  intros t Ht. apply (Hall pivot t Ht). exact (proj2 HX).
+Qed.
+
+Definition Inv (st : stest) : Prop :=
+  Rok (t_reach st) /\ Aok (t_avoid st) /\
+  (forall v, In v (free_vars Sp) -> In v (t_sat st) \/ In v (t_rest st)).
+
+Definition InvD (st : stest) : Prop :=
+  NoDup (t_reach st) /\ NoDup (avl (t_avoid st)).
+
+Lemma Inv_fwd : forall fuel force st pr0 pe0 st1 pr pe,
+  fwd_sat fuel N force st pr0 pe0 = Some (st1, pr, pe) -> Inv st -> Inv st1.
+Proof.
+  intros fuel force st pr0 pe0 st1 pr pe H (HR & HA & HV).
+  apply fwd_sat_spec in H. destruct H as (Hfg & Ha & Hs & Hr & _).
+  split; [apply (fgrow_Rok _ _ Hfg HR)|]. split; [rewrite Ha; exact HA|].
+  rewrite Hs, Hr. exact HV.
+Qed.
+
+Lemma InvD_fwd : forall fuel force st pr0 pe0 st1 pr pe,
+  fwd_sat fuel N force st pr0 pe0 = Some (st1, pr, pe) -> InvD st -> InvD st1.
+Proof.
+  intros fuel force st pr0 pe0 st1 pr pe H (HR & HA).
+  apply fwd_sat_spec in H. destruct H as (Hfg & Ha & _).
+  split; [apply (fgrow_NoDup N _ _ Hfg HR)|rewrite Ha; exact HA].
+Qed.
+
+Lemma Inv_bwd : forall fuel st pr0 st2 pr,
+  bwd_sat fuel N (states_of Sp) st pr0 = Some (st2, pr) -> Inv st -> Inv st2.
+Proof.
+  intros fuel st pr0 st2 pr H (HR & HA & HV).
+  apply bwd_sat_spec in H. destruct H as (Hre & Hbg & Hs & Hr & _).
+  split; [rewrite Hre; exact HR|]. split; [apply (bgrow_Aok _ _ Hbg HA)|].
+  rewrite Hs, Hr. exact HV.
+Qed.
+
+Lemma InvD_bwd : forall fuel st pr0 st2 pr,
+  bwd_sat fuel N (states_of Sp) st pr0 = Some (st2, pr) -> InvD st -> InvD st2.
+Proof.
+  intros fuel st pr0 st2 pr H (HR & HA).
+  apply bwd_sat_spec in H. destruct H as (Hre & Hbg & _).
+  split; [rewrite Hre; exact HR|].
+  apply (bgrow_NoDup N (states_of Sp) _ _ (states_of_NoDup Sp) Hbg HA).
+Qed.
+
+Lemma Inv_add : forall order st st3,
+  add_var N (states_of Sp) order st = Some st3 -> Inv st -> Inv st3.
+Proof.
+  intros order st st3 H (HR & HA & HV).
+  apply add_var_spec in H. destruct H as [v (_ & Hre & Ha & Hs & Hr)].
+  split; [rewrite Hre; apply Rok_post; exact HR|]. split.
+  - rewrite Ha. destruct (t_avoid st) as [a|]; [apply Aok_pre; exact HA|exact HA].
+  - intros w Hw. rewrite Hs, Hr. destruct (Nat.eq_dec w v) as [He|Hne].
+    + left. left. symmetry. exact He.
+    + destruct (HV w Hw) as [Hin|Hin]; [left; right; exact Hin|].
+      right. apply filter_In. split; [exact Hin|].
+      apply negb_true_iff. apply Nat.eqb_neq. exact Hne.
+Qed.
+
+Lemma InvD_add : forall order st st3,
+  add_var N (states_of Sp) order st = Some st3 -> InvD st -> InvD st3.
+Proof.
+  intros order st st3 H (HR & HA).
+  apply add_var_spec in H. destruct H as [v (_ & Hre & Ha & _)].
+  split; [rewrite Hre; apply var_post_out_ext_NoDup; exact HR|].
+  rewrite Ha. destruct (t_avoid st) as [a|]; [|exact HA].
+  simpl. apply var_pre_out_ext_NoDup; [apply states_of_NoDup|exact HA].
+Qed.
+
+Definition the_order (orders : list (list nat)) (st : stest) : list nat :=
+  match orders with
+  | o :: _ => if perm_nat o (t_rest st) then o else t_rest st
+  | [] => t_rest st
+  end.
+
+Lemma the_order_In : forall orders st v, In v (the_order orders st) <-> In v (t_rest st).
+Proof.
+  intros orders st v. unfold the_order. destruct orders as [|o r]; [tauto|].
+  destruct (perm_nat o (t_rest st)) eqn:E; [|tauto]. apply ST_perm_nat_In. exact E.
+Qed.
+
+Lemma main_loop_unfold : forall f U st force orders,
+  main_loop (S f) N U st force orders =
+  match fwd_sat (S (length U)) N force st false false with
+  | None => TNone
+  | Some (st1, prog1, pend1) =>
+      match bwd_sat (S (length U)) N U st1 false with
+      | None => TNone
+      | Some (st2, prog2) =>
+          match add_var N U (the_order orders st2) st2 with
+          | Some st3 => main_loop f N U st3 false (tl orders)
+          | None =>
+              if pend1 || prog2
+              then main_loop f N U st2 (negb (prog1 || prog2)) (tl orders)
+              else TSome (t_reach st2)
+          end
+      end
+  end.
+Proof. intros f U st force orders. reflexivity. Qed.
+
+(* ------------------------------------------------------------------ *)
+(* Soundness of the answers                                            *)
+(* ------------------------------------------------------------------ *)
+
+Lemma main_loop_sound : forall fuel st force orders, Inv st ->
+  match main_loop fuel N (states_of Sp) st force orders with
+  | TNone => exists t, reach N pivot t /\ In t avoid
+  | TSome R => (forall t, In t R <-> reach N pivot t) /\ (forall t, In t R -> ~ In t avoid)
+  | TFuel => True
+  end.
+Proof.
+  induction fuel as [|f IH]; intros st force orders HI; [exact I|].
+  rewrite main_loop_unfold.
+  destruct (fwd_sat (S (length (states_of Sp))) N force st false false)
+    as [[[st1 pr1] pe1]|] eqn:Ef.
+  2:{ apply fwd_sat_none in Ef. destruct Ef as [X [a [Hfg [Ha Hm]]]].
+      destruct HI as (HR & HA & _). rewrite Ha in HA.
+      apply (Sym_hit X a (fgrow_Rok _ _ Hfg HR) HA Hm). }
+  pose proof (Inv_fwd _ _ _ _ _ _ _ _ Ef HI) as HI1.
+  destruct (bwd_sat (S (length (states_of Sp))) N (states_of Sp) st1 false)
+    as [[st2 pr2]|] eqn:Eb.
+  2:{ apply bwd_sat_none in Eb. destruct Eb as [a [Hbg Hm]].
+      destruct HI1 as (HR & HA & _).
+      apply (Sym_hit (t_reach st1) a HR (bgrow_Aok _ _ Hbg HA) Hm). }
+  pose proof (Inv_bwd _ _ _ _ _ Eb HI1) as HI2.
+  destruct (add_var N (states_of Sp) (the_order orders st2) st2) as [st3|] eqn:Ea.
+  - apply IH. apply (Inv_add _ _ _ Ea HI2).
+  - destruct (pe1 || pr2) eqn:Ep; [apply IH; exact HI2|].
+    apply orb_false_iff in Ep. destruct Ep as [Hpe _]. subst pe1.
+    apply fwd_sat_quiet in Ef. destruct Ef as (He & Hsat & Hmeet). subst st1.
+    apply bwd_sat_spec in Eb. destruct Eb as (Hre & Hbg & Hs & Hr & _).
+    destruct HI2 as (HR2 & HA2 & HV2). destruct HI as (HR & HA & HV).
+    assert (Hcl : forall t, reach N pivot t -> In t (t_reach st2)).
+    { apply (Sym_closed _ HR2). intros v Hv. destruct (HV2 v Hv) as [Hin|Hin].
+      - rewrite Hre. apply Hsat. rewrite <- Hs. exact Hin.
+      - apply (add_var_none _ _ _ _ Ea). apply the_order_In. exact Hin. }
+    split.
+    + intros t. split; [apply (proj1 HR2)|apply Hcl].
+    + intros t Ht Hav. rewrite Hre in Ht.
+      destruct (t_avoid st) as [a|].
+      * assert (Hm : meets a (t_reach st) = true).
+        { apply meets_spec. exists t. split; [apply (proj1 HA); exact Hav|exact Ht]. }
+        rewrite Hm in Hmeet. discriminate.
+      * simpl in HA. rewrite HA in Hav. destruct Hav.
+Qed.
+
+(* ------------------------------------------------------------------ *)
+(* Termination: the progress fix rules out a stall                     *)
+(* ------------------------------------------------------------------ *)
+
+Lemma main_loop_term : forall fuel st (force : bool) orders, Inv st -> InvD st ->
+  2 * (2 * length (states_of Sp) + length (t_rest st)) + 2 <=
+    fuel + 2 * (length (t_reach st) + length (avl (t_avoid st))) + (if force then 1 else 0) ->
+  main_loop fuel N (states_of Sp) st force orders <> TFuel.
+Proof.
+  induction fuel as [|f IH]; intros st force orders HI HD Hm.
+  - exfalso. destruct HI as (HR & HA & _). destruct HD as (HDR & HDA).
+    pose proof (NoDup_incl_length HDR (Rok_incl _ HR)) as H1.
+    pose proof (NoDup_incl_length HDA (Aok_incl _ HA)) as H2.
+    destruct force; lia.
+  - rewrite main_loop_unfold.
+    destruct (fwd_sat (S (length (states_of Sp))) N force st false false)
+      as [[[st1 pr1] pe1]|] eqn:Ef; [|discriminate].
+    pose proof (Inv_fwd _ _ _ _ _ _ _ _ Ef HI) as HI1.
+    pose proof (InvD_fwd _ _ _ _ _ _ _ _ Ef HD) as HD1.
+    destruct (bwd_sat (S (length (states_of Sp))) N (states_of Sp) st1 false)
+      as [[st2 pr2]|] eqn:Eb; [|discriminate].
+    pose proof (Inv_bwd _ _ _ _ _ Eb HI1) as HI2.
+    pose proof (InvD_bwd _ _ _ _ _ Eb HD1) as HD2.
+    apply fwd_sat_spec in Ef. destruct Ef as (Hfg & Ha1 & Hs1 & Hr1 & Hpr1 & Hpe1).
+    pose proof (fgrow_length _ _ _ Hfg) as Hl1.
+    apply bwd_sat_spec in Eb. destruct Eb as (Hre2 & Hbg & Hs2 & Hr2 & Hpr2).
+    pose proof (bgrow_length _ _ _ _ Hbg) as Hl2.
+    rewrite Ha1 in Hl2, Hpr2.
+    destruct (add_var N (states_of Sp) (the_order orders st2) st2) as [st3|] eqn:Ea.
+    + apply IH; [apply (Inv_add _ _ _ Ea HI2)|apply (InvD_add _ _ _ Ea HD2)|].
+      apply add_var_spec in Ea. destruct Ea as [v (Hv & Hre3 & Ha3 & _ & Hr3)].
+      apply the_order_In in Hv.
+      assert (Hlt : length (t_rest st3) < length (t_rest st2)).
+      { rewrite Hr3. apply (ST_filter_length_lt _ _ _ v Hv).
+        apply negb_false_iff. apply Nat.eqb_refl. }
+      assert (Hge1 : length (t_reach st2) <= length (t_reach st3)).
+      { rewrite Hre3, app_length. lia. }
+      assert (Hge2 : length (avl (t_avoid st2)) <= length (avl (t_avoid st3))).
+      { rewrite Ha3. destruct (t_avoid st2) as [a|]; simpl; [rewrite app_length; lia|apply le_n]. }
+      rewrite Hr2, Hr1 in Hlt. rewrite Hre2 in Hge1.
+      destruct force; lia.
+    + destruct (pe1 || pr2) eqn:Ep; [|discriminate].
+      apply IH; [exact HI2|exact HD2|].
+      rewrite Hr2, Hr1, Hre2.
+      destruct pr1.
+      * destruct (Hpr1 eq_refl) as [Hx|Hx]; [discriminate|].
+        simpl. destruct force; lia.
+      * destruct pr2.
+        -- destruct (Hpr2 eq_refl) as [Hx|Hx]; [discriminate|].
+           simpl. destruct force; lia.
+        -- simpl. rewrite orb_false_r in Ep. subst pe1. destruct force; [|lia].
+           destruct (Hpe1 eq_refl eq_refl) as [Hx|Hx]; [discriminate|]. lia.
+Qed.
+
+End Sym.
+
+(* ------------------------------------------------------------------ *)
+(* The theorems about symbolic_test                                    *)
+(* ------------------------------------------------------------------ *)
+
+Definition init_stest (S : space) (pivot : state) (avoid : list state) (bools : list bool) : stest :=
+  {| t_reach := [pivot]; t_avoid := match avoid with [] => None | _ => Some avoid end;
+     t_sat := []; t_rest := rev (free_vars S); t_bools := bools |}.
+
+Lemma init_avl : forall avoid : list state,
+  avl (match avoid with [] => None | _ => Some avoid end) = avoid.
+Proof. intros [|a l]; reflexivity. Qed.
+
+Lemma init_Inv : forall N S pivot avoid bools,
+  (forall a, In a avoid -> in_space a S = true) ->
+  Inv N S pivot avoid (init_stest S pivot avoid bools).
+Proof.
+  intros N S pivot avoid bools Havoid. split; [|split].
+  - split; [|left; reflexivity]. intros t [Ht|[]]. subst t. apply A_reach_refl.
+  - simpl. destruct avoid as [|a l]; [reflexivity|]. split; [apply incl_refl|].
+    intros x Hx. split; [apply Havoid; exact Hx|]. exists x. split; [apply A_reach_refl|exact Hx].
+  - intros v Hv. right. simpl. apply in_rev in Hv. exact Hv.
+Qed.
+
+Theorem symbolic_test_some : forall fuel N S pivot avoid bools orders R,
+  trap_space N S -> in_space pivot S = true ->
+  (forall a, In a avoid -> in_space a S = true) ->
+  symbolic_test fuel N S pivot avoid bools orders = TSome R ->
+  (forall t, In t R <-> reach N pivot t) /\ (forall t, In t R -> ~ In t avoid).
+Proof.
+  intros fuel N S pivot avoid bools orders R Htrap Hpiv Havoid H.
+  pose proof (main_loop_sound N S pivot avoid Htrap Hpiv fuel
+                (init_stest S pivot avoid bools) false orders
+                (init_Inv N S pivot avoid bools Havoid)) as Hs.
+  unfold symbolic_test in H. unfold init_stest in Hs. rewrite H in Hs. exact Hs.
+Qed.
+
+Theorem symbolic_test_none : forall fuel N S pivot avoid bools orders,
+  trap_space N S -> in_space pivot S = true ->
+  (forall a, In a avoid -> in_space a S = true) ->
+  symbolic_test fuel N S pivot avoid bools orders = TNone ->
+  exists t, reach N pivot t /\ In t avoid.
+Proof.
+  intros fuel N S pivot avoid bools orders Htrap Hpiv Havoid H.
+  pose proof (main_loop_sound N S pivot avoid Htrap Hpiv fuel
+                (init_stest S pivot avoid bools) false orders
+                (init_Inv N S pivot avoid bools Havoid)) as Hs.
+  unfold symbolic_test in H. unfold init_stest in Hs. rewrite H in Hs. exact Hs.
+Qed.
+
+(* agreement with the contract used by the filtering theorem *)
+Corollary symbolic_test_meets_spec : forall fuel N S pivot avoid_spaces avoid_states bools orders,
+  trap_space N S -> in_space pivot S = true ->
+  let a := {| av_spaces := avoid_spaces; av_states := avoid_states |} in
+  let explicit := filter (in_avoid a) (states_of S) in
+  match symbolic_test fuel N S pivot explicit bools orders with
+  | TSome R => exists r, attractor_test N pivot a = Some r /\ forall t, In t R <-> In t r
+  | TNone => attractor_test N pivot a = None
+  | TFuel => True
+  end.
+Proof.
+  intros fuel N S pivot avoid_spaces avoid_states bools orders Htrap Hpiv a explicit.
+  assert (Hex : forall x, In x explicit -> in_space x S = true).
+  { intros x Hx. apply filter_In in Hx. apply states_of_spec. exact (proj1 Hx). }
+  assert (Hwf : wf_state N pivot).
+  { apply (in_space_wf N pivot S (trap_space_length N S Htrap) Hpiv). }
+  destruct (symbolic_test fuel N S pivot explicit bools orders) as [|R|] eqn:E; [| |exact I].
+  - destruct (symbolic_test_none _ _ _ _ _ _ _ Htrap Hpiv Hex E) as [t [Hr Ht]].
+    unfold attractor_test.
+    assert (Hb : existsb (in_avoid a) (reach_list N pivot) = true).
+    { apply existsb_exists. exists t. split; [apply reach_list_complete; assumption|].
+      apply filter_In in Ht. exact (proj2 Ht). }
+    rewrite Hb. reflexivity.
+  - destruct (symbolic_test_some _ _ _ _ _ _ _ _ Htrap Hpiv Hex E) as [HR Hno].
+    exists (reach_list N pivot). unfold attractor_test.
+    assert (Hb : existsb (in_avoid a) (reach_list N pivot) = false).
+    { destruct (existsb (in_avoid a) (reach_list N pivot)) eqn:Eb; [|reflexivity]. exfalso.
+      apply existsb_exists in Eb. destruct Eb as [x [Hx Hax]].
+      apply reach_list_sound in Hx.
+      apply (Hno x); [apply HR; exact Hx|].
+      apply filter_In. split; [|exact Hax]. apply states_of_spec.
+      apply (Sym_reach_in N S Htrap pivot x Hpiv Hx). }
+    rewrite Hb. split; [reflexivity|].
+    intros t. rewrite HR. symmetry. apply A_reach_list_spec. exact Hwf.
+Qed.
+
+Theorem symbolic_test_terminates : forall fuel N S pivot avoid bools orders,
+  trap_space N S -> in_space pivot S = true ->
+  (forall a, In a avoid -> in_space a S = true) -> NoDup avoid ->
+  symbolic_test_fuel S <= fuel -> symbolic_test fuel N S pivot avoid bools orders <> TFuel.
+Proof.
+  intros fuel N S pivot avoid bools orders Htrap Hpiv Havoid Hnd Hfuel.
+  unfold symbolic_test.
+  apply (main_loop_term N S pivot avoid Htrap Hpiv fuel (init_stest S pivot avoid bools) false orders).
+  - apply init_Inv. exact Havoid.
+  - split; simpl.
+    + constructor; [intros []|constructor].
+    + rewrite init_avl. exact Hnd.
+  - unfold symbolic_test_fuel in Hfuel. simpl t_rest. simpl t_reach. simpl t_avoid.
+    rewrite init_avl, rev_length.
+    assert (Hfv : length (free_vars S) <= length S).
+    { unfold free_vars. etransitivity; [apply ST_filter_length_le|]. rewrite seq_length. apply le_n. }
+    simpl length at 3. lia.
+Qed.
+
+(* ------------------------------------------------------------------ *)
+(* Defect D6: without the force flag the procedure can stall           *)
+(* ------------------------------------------------------------------ *)
+
+(* main_loop with the progress fix removed: force is always false *)
+Fixpoint main_loop_noforce (fuel : nat) (N : net) (universe : list state) (st : stest)
+         (orders : list (list nat)) : tres :=
+  match fuel with
+  | O => TFuel
+  | S f =>
+      match fwd_sat (S (length universe)) N false st false false with
+      | None => TNone
+      | Some (st1, prog1, pend1) =>
+          match bwd_sat (S (length universe)) N universe st1 false with
+          | None => TNone
+          | Some (st2, prog2) =>
+              let order := match orders with o :: _ => if perm_nat o (t_rest st2) then o else t_rest st2 | [] => t_rest st2 end in
+              match add_var N universe order st2 with
+              | Some st3 => main_loop_noforce f N universe st3 (tl orders)
+              | None =>
+                  if pend1 || prog2
+                  then main_loop_noforce f N universe st2 (tl orders)
+                  else TSome (t_reach st2)
+              end
+          end
+      end
+  end.
+
+(* x0' = if x2 then x0 else not x1;  x1' = if x2 then x1 else x0;  x2' = x2.
+   From 000 the layer x2 = 0 is the cycle 000 -> 100 -> 110 -> 010 -> 000; avoid = {001}
+   lies in the frozen layer x2 = 1 and has no predecessors.  Variable 2 can never be added,
+   so "all variables saturated" never holds, and once 0 and 1 are saturated the growth
+   110 -> 010 along variable 0 is declined by the always-false tape, forever. *)
+Definition stall_net : net :=
+  [ (fun s => if nth 2 s false then nth 0 s false else negb (nth 1 s false));
+    (fun s => if nth 2 s false then nth 1 s false else nth 0 s false);
+    (fun s => nth 2 s false) ].
+Definition stall_space : space := [None; None; None].
+Definition stall_pivot : state := [false; false; false].
+Definition stall_avoid : list state := [[false; false; true]].
+
+Definition stall_state : stest :=
+  {| t_reach := [[false; false; false]; [true; false; false]; [true; true; false]];
+     t_avoid := Some stall_avoid; t_sat := [1; 0]; t_rest := [2]; t_bools := [] |}.
+
+Lemma stall_fixpoint : forall fuel,
+  main_loop_noforce fuel stall_net (states_of stall_space) stall_state [] = TFuel.
+Proof.
+  induction fuel as [|f IH]; [reflexivity|].
+  change (main_loop_noforce (S f) stall_net (states_of stall_space) stall_state [])
+    with (main_loop_noforce f stall_net (states_of stall_space) stall_state []).
+  exact IH.
+Qed.
+
+Lemma stall_prefix : forall f,
+  main_loop_noforce (S (S f)) stall_net (states_of stall_space)
+    (init_stest stall_space stall_pivot stall_avoid []) [] =
+  main_loop_noforce f stall_net (states_of stall_space) stall_state [].
+Proof. intros f. reflexivity. Qed.
+
+Theorem noforce_can_stall_wf : exists N S pivot avoid,
+  trap_space N S /\ in_space pivot S = true /\
+  (forall a, In a avoid -> in_space a S = true) /\ NoDup avoid /\
+  (forall fuel,
+     main_loop_noforce fuel N (states_of S)
+       {| t_reach := [pivot]; t_avoid := Some avoid; t_sat := []; t_rest := rev (free_vars S);
+          t_bools := [] |} [] = TFuel) /\
+  (forall fuel, symbolic_test_fuel S <= fuel -> symbolic_test fuel N S pivot avoid [] [] <> TFuel).
+Proof.
+  exists stall_net, stall_space, stall_pivot, stall_avoid.
+  assert (Htrap : trap_space stall_net stall_space) by apply (trap_space_top stall_net).
+  assert (Hav : forall a, In a stall_avoid -> in_space a stall_space = true).
+  { intros a [Ha|[]]. subst a. reflexivity. }
+  assert (Hnd : NoDup stall_avoid).
+  { constructor; [intros []|constructor]. }
+  split; [exact Htrap|]. split; [reflexivity|]. split; [exact Hav|]. split; [exact Hnd|]. split.
+  - intros fuel. destruct fuel as [|[|f]]; [reflexivity|reflexivity|].
+    change (main_loop_noforce (S (S f)) stall_net (states_of stall_space)
+              (init_stest stall_space stall_pivot stall_avoid []) [] = TFuel).
+    rewrite stall_prefix. apply stall_fixpoint.
+  - intros fuel Hfuel. apply symbolic_test_terminates; try assumption. reflexivity.
+Qed.
+
+Theorem noforce_can_stall : exists N S pivot avoid, forall fuel,
+  main_loop_noforce fuel N (states_of S)
+    {| t_reach := [pivot]; t_avoid := Some avoid; t_sat := []; t_rest := rev (free_vars S);
+       t_bools := [] |} [] = TFuel.
+Proof.
+  destruct noforce_can_stall_wf as [N [S [pivot [avoid (_ & _ & _ & _ & H & _)]]]].
+  exists N, S, pivot, avoid. exact H.
+Qed.
+
+Print Assumptions symbolic_test_some.
+Print Assumptions symbolic_test_none.
+Print Assumptions symbolic_test_terminates.
